@@ -11,7 +11,7 @@ D="$(cd "$1" && pwd)"; shift
 SNAP=$(mktemp -d /dev/shm/verifsnap-XXXXXX)
 # /verif may be in the middle of an edit: take the copy again until it builds
 for try in 1 2 3 4 5 6 7 8 9 10 11 12; do
-  rsync -a --delete --exclude .git --exclude bin --exclude evidence --exclude replays --exclude seeded /verif/ "$SNAP/"
+  rsync -a --delete --exclude .git --exclude bin --exclude evidence --exclude replays --exclude seeded "${VERIF_SRC:-/verif}/" "$SNAP/"
   if (cd "$SNAP" && GOFLAGS=-mod=mod GOPROXY=off GOSUMDB=off GOTOOLCHAIN=local GOWORK=off go build ./... >/dev/null 2>&1); then break; fi
   sleep 20
 done
